@@ -54,7 +54,7 @@ func word(r *verifx.Rng, b []byte, n int) []byte {
 // genNorm returns the source bytes and a tag describing the generator used
 func genNorm(r *verifx.Rng) ([]byte, string) {
 	var b []byte
-	switch r.Pick(3, 3, 4, 4, 4, 2, 2, 2) {
+	switch r.Pick(3, 3, 4, 4, 4, 2, 2, 2, 3) {
 	case 0: // clean ASCII words, single spaces: fast path
 		nw := r.Range(1, 6)
 		for i := 0; i < nw; i++ {
@@ -134,6 +134,23 @@ func genNorm(r *verifx.Rng) ([]byte, string) {
 		return b, "len-boundary"
 	case 5: // random bytes
 		return r.Bytes(r.Range(0, 40)), "random"
+	case 8: // a VALID value with multi-byte runes whose length is exactly 125..131 bytes (identity / cut exactly at the limit)
+		target := format.MaxStringLen - 3 + r.Intn(7)
+		b = utf8.AppendRune(b, printable[4+r.Intn(len(printable)-4)])
+		for len(b) < target-5 {
+			if r.Chance(1, 6) && b[len(b)-1] != ' ' {
+				b = append(b, ' ')
+			} else {
+				b = word(r, b, 1)
+			}
+		}
+		if b[len(b)-1] == ' ' {
+			b = append(b, 'x')
+		}
+		for len(b) < target {
+			b = append(b, byte(r.Range(0x21, 0x7e)))
+		}
+		return b, "valid-at-limit"
 	case 6: // only spaces / tiny inputs
 		n := r.Range(0, 4)
 		for i := 0; i < n; i++ {
